@@ -54,6 +54,7 @@ func checkC02(ctx *Ctx, r *Report) {
 	c02ReservedWordTables(ctx, r)
 	c02GoImportInScope(ctx, r)
 	c02GoBareTypeNames(ctx, r)
+	c02GoAliasConstructor(ctx, r)
 }
 
 // kindConsts: the constants of ast.Kind / ast.ScalarKind.
@@ -2239,4 +2240,60 @@ func c02GoBareTypeNames(ctx *Ctx, r *Report) {
 	}
 	r.Count("formatObjectName uses in Go templates", uses)
 	r.Floor("formatObjectName uses in Go templates", 30)
+}
+
+// c02GoAliasConstructor: an object that names another one (`type R = S`) gets a constructor delegating to the
+// referred struct's, which returns *S. When the alias is nullable (`type R = *S`) the declared result *R is **S:
+// the delegated value can not be returned as is, so the body written for an alias must depend on Type.Nullable.
+func c02GoAliasConstructor(ctx *Ctx, r *Report) {
+	p := ctx.Pkg("internal/jennies/golang")
+	if p == nil {
+		return
+	}
+	var fd *ast.FuncDecl
+	for _, f := range p.Syntax {
+		for _, d := range f.Decls {
+			if x, ok := d.(*ast.FuncDecl); ok && x.Name.Name == "generateConstructor" && x.Body != nil {
+				fd = x
+			}
+		}
+	}
+	if fd == nil {
+		r.Undecided("anchor lost: golang.generateConstructor")
+		return
+	}
+	n := 0
+	ast.Inspect(fd.Body, func(m ast.Node) bool {
+		is, ok := m.(*ast.IfStmt)
+		if !ok {
+			return true
+		}
+		c, ok := ast.Unparen(is.Cond).(*ast.CallExpr)
+		if !ok {
+			return true
+		}
+		fn := callee(p.TypesInfo, c)
+		if fn == nil || fn.Name() != "IsRef" {
+			return true
+		}
+		n++
+		testsNullable := false
+		ast.Inspect(is.Body, func(q ast.Node) bool {
+			if inner, ok := q.(*ast.IfStmt); ok {
+				ast.Inspect(inner.Cond, func(e ast.Node) bool {
+					if sel, ok := e.(*ast.SelectorExpr); ok && sel.Sel.Name == "Nullable" {
+						testsNullable = true
+					}
+					return true
+				})
+			}
+			return true
+		})
+		r.Check(testsNullable, "skeleton/go-alias-constructor-pointer", "golang.generateConstructor alias branch", is.Pos(),
+			"the constructor written for an alias depends on whether the alias is nullable",
+			"the constructor of an alias returns the delegated constructor's result whatever the alias: for `R: S | null` (type R = *S) that is `func NewR() *R { return NewS() }` — a *S where a **S is declared, the package does not compile")
+		return false
+	})
+	r.Count("alias branches of the Go constructor", n)
+	r.Floor("alias branches of the Go constructor", 1)
 }
